@@ -183,6 +183,11 @@ func runCharac(id string, toks []string) (res string) {
 			ret := c.GetValueFromConnection(&fakeConn{id: q[0]})
 			extra = handedOut(c, ret)
 			c.OnValueGet(nil)
+		case "B":
+			// the application declares the range again (exported fields, as the accessory constructors do)
+			q := strings.SplitN(p[1], ",", 2)
+			c.MinValue = parseBound(q[0])
+			c.MaxValue = parseBound(q[1])
 		case "ST":
 			// the application declares a step value (it must never move a value out of its bounds)
 			c.StepValue = parseVal(p[1])
